@@ -77,6 +77,9 @@ def make_outcome(how):
     if kind == "val":
         return ("return", {"0": 0, "0.0": 0.0, "False": False, "''": "", "[]": [], "()": (), "x": "x", "obj": object(), "1": 1, "awaitable": Awaitable(),
                            "excobj": UserExc("returned, not raised"), "baseobj": UserBase("returned, not raised")}[what])
+    if how == "exc:Group1":
+        # an exception group with a single member (what a nursery of the payload's own raises)
+        return ("raise", ExceptionGroup("from payload", [UserExc("inner")]))
     if kind in ("exc", "base"):
         cls = {"LookupError": LookupError, "UserExc": UserExc, "UserExcSub": UserExcSub, "ValueError": ValueError, "RuntimeError": RuntimeError, "FalsyExc": FalsyExc, "TimeoutError": TimeoutError, "CancelledError": asyncio.CancelledError,
                "UserBase": UserBase, "SystemExit": SystemExit, "KeyboardInterrupt": KeyboardInterrupt, "GeneratorExit": GeneratorExit}[what]
